@@ -574,7 +574,7 @@ func (d *driver) record(ir inputResult) {
 			d.res.Caps = appendUniq(d.res.Caps, "stage "+r.St+" is exercised only on the first 5 cycle-visible/very deep trees of every child process (it descends to maxWalkDepth=10000, bounded but ~1 s each)")
 			continue
 		}
-		if r.Tag != "" && (r.V == vOK || r.V == vErr || r.V == vPanic || r.V == vWrong) {
+		if r.Tag != "" && !r.Died && (r.V == vOK || r.V == vErr || r.V == vPanic || r.V == vWrong) {
 			ts := d.tagStat(r.St + "|" + r.Tag)
 			ts.survived++
 			if len(ts.deaths) > 0 || deathsOf(claimsDir(), r.St+"|"+r.Tag) > 0 {
@@ -788,7 +788,7 @@ func (d *driver) run() {
 				return
 			}
 			key, top, noRepo := classifyTrace(verdict, msg, trace, false)
-			r := stageRes{St: info.stage, V: verdict, Key: key, Msg: msg, Top: top, NoRepo: noRepo, Tag: info.tag}
+			r := stageRes{St: info.stage, V: verdict, Key: key, Msg: msg, Top: top, NoRepo: noRepo, Tag: info.tag, Died: true}
 			if stageClass(info.stage) == "fsreader.Cache" {
 				d.cacheDeaths++
 			}
